@@ -111,6 +111,13 @@ class Consumer:
     def poll(self, timeout=None):
         if self.assigned is None:
             return None
+        env = ENV
+        n = env['fetch_calls']
+        env['fetch_calls'] = n + 1
+        if n in env['fetch_fail']:
+            env['rec'].rec('fault', 'fetch_fail', self.assigned[0], self.assigned[1])
+            env['fired']['fetch_fail'] = env['fired'].get('fetch_fail', 0) + 1
+            raise KafkaException('injected: fetch failed')
         b = ENV['broker']
         p, off = self.assigned
         off = max(off, b.low.get(p, 0))       # (offset out of range: the client resets to the log start)
@@ -253,7 +260,8 @@ def run_incarnation(sc, broker, inc, t0, crash_at, pending_msgs):
     ENV.update({'broker': broker, 'rec': rec, 'loop': lp, 'wm_calls': 0, 'committed_calls': 0,
                 'wm_fail': set(f.get('watermark_fail', [])) if inc == 0 else set(f.get('watermark_fail_restart', [])),
                 'committed_fail': f.get('committed_fail', 0) if inc == 0 else 0,
-                'commit_lat': f.get('commit_lat'), 'fired': {}, 'stalls': 0})
+                'commit_lat': f.get('commit_lat'), 'fired': {}, 'stalls': 0, 'fetch_calls': 0,
+                'fetch_fail': set(f.get('fetch_fail', [])) if inc == 0 else set()})
     sc_graph = {'graph': sc['graph'], 'producers': [], 'faults': {}}
     ctx = Ctx(sc_graph, rec, lp, 'async')
     state = {'status': 'ok', 'crashed': False}
@@ -463,6 +471,8 @@ def judge(sc, incs, broker):
         nstatic = static_parts if static_parts is not None else snap['nparts']
         last_hi = {}
         for e in ev:
+            if e[2] in ('task_exc', 'bg_exc') and any('injected' in str(x) for x in e[3:]):
+                continue        # the transient fetch failure we injected surfaces in the (un-awaited) emit coroutine
             if e[2] in ('task_exc', 'bg_exc', 'hang'):
                 V.append(Violation('C09', 'C09.range', e[0], 'incarnation %d: the source or a forwarder died: %r' % (i, e[3:]), node_op='from_kafka_batched'))
                 return V
@@ -512,21 +522,28 @@ def judge(sc, incs, broker):
             g = {'graph': sc['graph'], 'producers': [], 'faults': {}}
             an = r['an'] = Analysis(g, r['res'])
         emits = [e for e in ev if e[2] == 'kafka_emit']
-        outs0 = an.outs.get(0, [])
-        for k, o in enumerate(outs0):
+        ins0 = an.ins.get(0, [])
+        from .fns import freeze
+        for k, i0 in enumerate(ins0):
             if k >= len(emits):
                 break
             p, lo, hi = emits[k][3], emits[k][4], emits[k][5]
             exp = [broker.logs[p][j][1] for j in range(lo, hi + 1)]
             if sc.get('keys'):
                 exp = [{'key': broker.logs[p][j][0], 'value': broker.logs[p][j][1]} for j in range(lo, hi + 1)]
-            from .fns import freeze
-            got = o.value
-            if got != freeze(exp):
-                V.append(Violation('C09', 'C09.content', o.seq,
-                                   'incarnation %d partition %d range %d..%d delivered %r, the log holds %r' % (i, p, lo, hi, got, exp),
-                                   node_op='from_kafka_batched'))
-                return V
+            if i0.exc or i0.ret is None:
+                if i0.outs:
+                    V.append(Violation('C09', 'C09.content', i0.seq,
+                                       'incarnation %d partition %d range %d..%d: reading the batch failed, yet %r was delivered'
+                                       % (i, p, lo, hi, i0.outs[0].value), node_op='from_kafka_batched'))
+                    return V
+                continue
+            for o in i0.outs:
+                if o.value != freeze(exp):
+                    V.append(Violation('C09', 'C09.content', o.seq,
+                                       'incarnation %d partition %d range %d..%d delivered %r, the log holds %r' % (i, p, lo, hi, o.value, exp),
+                                       node_op='from_kafka_batched'))
+                    return V
         # O2: an offset is committed only when its batch has been completely processed
         for v in an.refcount_scan(want_c04=True, want_c05=False):
             elem = None
@@ -567,7 +584,7 @@ def judge(sc, incs, broker):
             per_inc_sorted = all(
                 [e[4] for e in r['res'].events if e[2] == 'commit_call' and e[3] == p] ==
                 sorted(e[4] for e in r['res'].events if e[2] == 'commit_call' and e[3] == p) for r in incs)
-            if not per_inc_sorted:
+            if not per_inc_sorted or any(r['fired'].get('fetch_fail') for r in incs):
                 anchored = False
             if h > 0 and first is not None and anchored and max(c, broker.low.get(p, 0)) != h:
                 V.append(Violation('C09', 'C09.not_caught_up', len(last['res'].events) - 1,
@@ -691,6 +708,9 @@ def generate(prop, rng, seed, index, tier):
         faults['commit_lat'] = rng.choice([0, 0.25, 1, 3])
     if rng.random() < 0.3:
         faults['inflight_lands'] = True
+    if rng.random() < 0.2:
+        # a fetch of the per-batch consumer fails in the middle of some batch
+        faults['fetch_fail'] = sorted(set(rng.randrange(0, 12) for _ in range(rng.randrange(1, 3))))
     # downstream pipeline (order preserving)
     shape = rng.choice(['sink', 'sink', 'map', 'buffer', 'flatten', 'rate_limit', 'timed_window', 'buffer_map'])
     graph = [{'id': 0, 'op': 'external'}]
